@@ -542,13 +542,25 @@ def o_progress(rec, world, hist=None):
     seqs = []
     for o in rec.observers:
         seqs.append([r[1:] for r in o.records])
-    first = rec.observers[0].records
-    # composite: every member saw the same sequence
+    # composite: every member receives every notification (members are called
+    # one after the other, so the relative order of notifications coming from
+    # different threads may differ between members; each member's own sequence
+    # must satisfy the grammar below)
+    ms0 = sorted(map(repr, seqs[0]))
     for i, s in enumerate(seqs[1:], 1):
-        if s != seqs[0]:
-            out.append(V("composite-fanout", f"composite member {i} saw a different notification sequence "
-                                             f"({len(s)} vs {len(seqs[0])} notifications)"))
+        if sorted(map(repr, s)) != ms0:
+            out.append(V("composite-fanout", f"composite member {i} did not receive the same notifications as "
+                                             f"member 0 ({len(s)} vs {len(seqs[0])})"))
             return out
+    for o in rec.observers:
+        out = _progress_one(rec, world, ix, o.records)
+        if out:
+            return out
+    return out
+
+
+def _progress_one(rec, world, ix, first):
+    out = []
     kinds = [r[1] for r in first]
     if not kinds or kinds[0] != "enter":
         out.append(V("observer-grammar", f"first notification is {kinds[:1]}, not enter"))
@@ -615,46 +627,42 @@ def o_progress(rec, world, hist=None):
             out.append(V("run-totals", f"'run' totals per user scope {got} != executed calls per scope {want}"))
             return out
         if rec.built.registry is not None:
-            n_calls = sum(1 for n in world["nodes"] if n["kind"] in ("call", "src", "gather", "unpack", "item"))
-            n_calls += _implicit_gathers(world)
+            from uberjob.graph import Call
+
+            # calls of the plan handed to run, plus the gather calls run adds for a structured output
+            n_calls = sum(1 for x in rec.built.plan.graph.nodes() if type(x) is Call)
+            wants = rec.op.get("cfg", {}).get("output", True) and world.get("output") is not None
+            if wants:
+                n_calls += _implicit_gathers_spec(world["output"])
             st = sum(t for (section, _), t in totals.items() if section == "stale")
             if st != n_calls:
                 out.append(V("stale-totals", f"'stale' totals sum to {st}, the plan has {n_calls} calls to examine"))
     return out
 
 
-def _implicit_gathers(world):
-    """Number of gather calls uberjob inserts for nested structures that
-    contain nodes (one per container that contains a node)."""
+def _implicit_gathers_spec(spec):
+    """Gather calls inserted for a structure: one per exact built-in container
+    (and per dict item pair) that contains a node."""
     cnt = 0
+    k = spec[0]
+    if k in ("L", "T", "S"):
+        if ref.has_node(spec):
+            cnt += 1
+        kids = spec[1]
+        if k == "S":
+            # a set display keeps one element per build-time-equal member
+            from model.worldgen import _build_key
 
-    def walk(spec, top):
-        nonlocal cnt
-        k = spec[0]
-        if k in ("L", "T", "S"):
-            if ref.has_node(spec):
+            kids = list({_build_key(x): x for x in kids}.values())
+        for s in kids:
+            cnt += _implicit_gathers_spec(s)
+    elif k == "D":
+        if ref.has_node(spec):
+            cnt += 1
+        for a, b in spec[1]:
+            if ref.has_node(a) or ref.has_node(b):
                 cnt += 1
-            for s in spec[1]:
-                walk(s, False)
-        elif k == "D":
-            if ref.has_node(spec):
-                cnt += 1
-                # each (key, value) pair is gathered as a tuple when it contains a node
-                for a, b in spec[1]:
-                    if ref.has_node(a) or ref.has_node(b):
-                        cnt += 1
-            for a, b in spec[1]:
-                walk(a, False)
-                walk(b, False)
-
-    for n in world["nodes"]:
-        if n["kind"] == "gather":
-            # the explicit gather node itself is the outermost container
-            cnt -= 1
-        for s in n.get("args", ()):
-            walk(s, True)
-        for _, s in n.get("kwargs", ()):
-            walk(s, True)
+            cnt += _implicit_gathers_spec(a) + _implicit_gathers_spec(b)
     return cnt
 
 
@@ -665,12 +673,12 @@ def _scope_tokens(n):
 
 
 def _skey(scope):
-    return repr(tuple(scope))
+    # scopes are identified by equality (Plan.scope: "hashable and equatable")
+    return tuple(scope)
 
 
 def _is_user_scope(sk, rec):
-    return any(sk.endswith(f"'{rec.built.fns[i].__module__}.{nm}',)") or sk.endswith(f"'{rec.built.fns[i].__module__}.{nm}')")
-               for i in rec.built.fns for nm in ("f", "g", "h"))
+    return bool(sk) and isinstance(sk[-1], str) and sk[-1].startswith("model.build.")
 
 
 def _has_base_exception(rec):
